@@ -89,6 +89,12 @@ CLAIMED = {
   text="10 000 (quick) / 200 000 (thorough) histories per seed, each ending in hundreds of swept queries over known, pruned and never-inserted roots and slots from before the anchor to after the head, plus directed templates and regression replays; ~1 850 / 2 800 distinct (query kind, argument-relation class, pre/post-prune, tree shape) keys; 23 mandatory classes hold at every seed. Eight mutants caught in the quick tier (one planned mutant is equivalent on the repaired tree); six genuine defects found and repaired.",
   note="Trusts fcmodel's query functions and the doc readings written next to them (first-node semantics for InSubtree and CanonAtSlot; heads = blocks without a child block; Search compared as sets). Canonical-dependent queries are asked after a head flush because votes are batched. Trees <=40 nodes.",
   ref="§3 C11, Appendix A"),
+ "C03": dict(
+  technique="mutation-based property testing (rapid): single-fault mutations of valid-by-construction blocks from a catalogue tied to spec assertions, re-rooted and re-signed so that the targeted assertion is reached, plus byte-level corruption of block encodings; the from-spec reference decides accept/reject; verdicts compared with and without result validation; panics recovered",
+  level="exploration",
+  text="On every block of generated chains up to 8 of ~75 catalogue mutations are applied (header fields, outer signature under another key/domain/fork version/genesis root, randao, attestation data/bits/signature incl. subset and cross-domain signatures, attester and proposer slashing shape/signature/index faults, deposit count/proof/order/amount, exit epoch/key/domain/index/duplicate and the Deneb fixed-domain rule, BLS-change faults, sync-aggregate faults, payload parent hash/randao/timestamp/withdrawals/blob limit, lists over limit, duplicated operations, and four benign edits that must still be accepted with the reference post-state). A mutated block the reference rejects must make the library return an error, never a panic; because a stale declared state root would hide a missing body check, the comparison is repeated with validate_result=false. Byte-level corruptions (bit flips, truncation, splice, 4-byte overwrite) must be undecodable, rejected, or decode to the very block that was signed. Sampling; multi-fault blocks only via the byte-level generator.",
+  note="Trusted base: refspec/refssz, BLS library. Non-trivial cases are those the reference rejects with a message of the targeted assertion family (measured per (fork, mutation id)). Which error the library returns is irrelevant.",
+  ref="§3 C03"),
 }
 PENDING_REASON = "check not built yet in this session (designed in DESIGN.md §3; will be claimed when its machinery is committed)"
 
